@@ -4,13 +4,16 @@
    J2  byte level : parse_json (render_json fmtF false 0 d) = Some (to_jdoc fmtF d)   (compact writer)
    J3             : the same for the pretty writer
    J4  top level  : decode_json ... (render_json fmtF pretty 0 d) = DOk (expect ...)
-   Floats are external (strconv): the facts used are Section hypotheses, bundled as [json_float_oracle_ok] at the end. *)
+   Floats are external (strconv): the facts used are Section hypotheses, bundled as [json_float_oracle_ok] at the end
+   (satisfiable: [json_float_oracle_consistent]).  J2-J4 need valid UTF-8 strings / keys / schema names ([doc_utf8], discharged
+   from [env_utf8] [ty_utf8] [val_utf8] by [enc_doc_utf8]); without it the statement is false of the code: the writer replaces
+   ill-formed bytes by U+FFFD ([json_roundtrip_full], [json_roundtrip_refuted], [json_roundtrip_full_false]). *)
 From Coq Require Import List Bool Arith ZArith NArith Lia Permutation.
 From Coq Require DecimalFacts DecimalPos DecimalZ.
 From Coq.Strings Require Import Byte.
 From GR Require Import Base.Bytes Base.Res Base.Dec Codec.Schema Codec.Doc Codec.Escape Codec.Utf8 Codec.Json Codec.Tracker
   Codec.Render Codec.Encode Codec.Decode.
-From GR Require Import Proofs.Ror2NoPanic Proofs.ConformProofs Proofs.Ror2RoundTrip.
+From GR Require Import Gen.TablesCodec Proofs.Ror2NoPanic Proofs.ConformProofs Proofs.Ror2RoundTrip.
 Import ListNotations.
 
 (* ======================================================================================================
@@ -1074,7 +1077,8 @@ Proof. intros H. destruct fuel as [|f]; [reflexivity|]. rewrite !parse_value_S, 
 Definition num_head_ok (c : byte) : bool :=
   implb (Byte.eqb c x2d || is_digit c)
     (negb (is_ws c) && negb (Byte.eqb c x22) && negb (Byte.eqb c x7b) && negb (Byte.eqb c x5b)
-     && negb (Byte.eqb x74 c) && negb (Byte.eqb x66 c) && negb (Byte.eqb x6e c) && negb (Byte.eqb c x5d) && negb (Byte.eqb c x7d)).
+     && negb (Byte.eqb x74 c) && negb (Byte.eqb x66 c) && negb (Byte.eqb x6e c) && negb (Byte.eqb c x5d) && negb (Byte.eqb c x7d)
+     && negb (Byte.eqb c x6e)).
 Lemma num_head_sweep : forallb num_head_ok all_bytes = true.
 Proof. vm_compute. reflexivity. Qed.
 
@@ -1280,7 +1284,7 @@ Section Bytes.
   Qed.
 
   Definition head_ok (t : bytes) : Prop :=
-    exists c r, t = c :: r /\ is_ws c = false /\ Byte.eqb c x5d = false /\ Byte.eqb c x7d = false.
+    exists c r, t = c :: r /\ is_ws c = false /\ Byte.eqb c x5d = false /\ Byte.eqb c x7d = false /\ Byte.eqb c x6e = false.
 
   Lemma number_head_ok t : json_number_ok t -> head_ok t.
   Proof.
@@ -1391,7 +1395,7 @@ Section Bytes.
         rewrite <- !app_assoc.
         destruct (join_head (x2c :: sep_open pretty depth) (R pretty (S depth) x) (map (R pretty (S depth)) ds)
                     (sep_close pretty depth ++ [x5d] ++ rest)) as [m Hm].
-        destruct (render_head pretty (S depth) x) as (c & r0 & Ec & Hc1 & Hc2 & _).
+        destruct (render_head pretty (S depth) x) as (c & r0 & Ec & Hc1 & Hc2 & _ & _).
         assert (Hsk : skip_ws (sep_open pretty depth ++ join_bytes (x2c :: sep_open pretty depth) (map (R pretty (S depth)) (x :: ds))
                                 ++ sep_close pretty depth ++ [x5d] ++ rest) = c :: r0 ++ m).
         { rewrite (skip_ws_app _ _ (sep_open_ws _ _)). cbn [map]. rewrite Hm, Ec. cbn [app]. apply skip_ws_id, Hc1. }
@@ -1444,4 +1448,468 @@ Section Bytes.
     cbn [app] in H. rewrite app_nil_r in H. rewrite H; [reflexivity| |exact I].
     pose proof (render_len d pretty 0). lia.
   Qed.
+
+  Lemma render_not_null pretty depth d : bytes_eqb (R pretty depth d) lit_null = false.
+  Proof. destruct (render_head pretty depth d) as (c & r & -> & _ & _ & _ & H). unfold lit_null. cbn [bytes_eqb]. rewrite H. reflexivity. Qed.
+  Lemma render_nonempty pretty depth d : R pretty depth d <> [].
+  Proof. destruct (render_head pretty depth d) as (c & r & -> & _). discriminate. Qed.
 End Bytes.
+
+(* ======================================================================================================
+   J4: the top level - NewJsonReader + UnmarshalRestLi on the writer's output
+   ====================================================================================================== *)
+Definition json_float_oracle_ok (fmtF : bool -> N -> bytes) (parseF : nat -> bytes -> option N) : Prop :=
+  (forall is32 b, classify_float is32 b = FFinite -> json_number_ok (fmtF is32 b)) /\
+  (forall b, (b < 2 ^ 64)%N -> classify_float false b <> FNaN -> parseF 0 (float_text fmtF false b) = Some b) /\
+  (forall b, (b < 2 ^ 32)%N -> classify_float true b <> FNaN -> parseF 2 (float_text fmtF true b) = Some b).
+
+Theorem decode_json_roundtrip fmtF parseF e wc ignore fe scope t v d fd pretty :
+  json_float_oracle_ok fmtF parseF ->
+  wf_env e -> wf_ty t -> typed e t v -> enc e wc ps_empty fe scope t v = Ok d -> vsize v <= fd -> doc_utf8 d ->
+  decode_json e wc ps_empty ignore parseF fd t (render_json fmtF pretty 0 d) = DOk (expect parseF e wc ignore v fd t).
+Proof.
+  intros (On & O64 & O32) Hw Hwt Ht He Hs Hu. unfold decode_json.
+  pose proof (render_nonempty fmtF On pretty 0 d) as Hne.
+  destruct (render_json fmtF pretty 0 d) as [|c r] eqn:E; [congruence|]. rewrite <- E.
+  rewrite (render_not_null fmtF On), (parse_render_json fmtF On pretty d Hu).
+  rewrite (json_tree_roundtrip fmtF parseF e wc ignore O64 O32 Hw fe scope t v d fd true tracker0 Hwt Ht He Hs (or_intror eq_refl)).
+  reflexivity.
+Qed.
+
+Theorem decode_json_roundtrip_nodefaults fmtF parseF e wc ignore fe scope t v d fd pretty :
+  json_float_oracle_ok fmtF parseF ->
+  wf_env e -> no_defaults e -> wf_ty t -> typed e t v -> enc e wc ps_empty fe scope t v = Ok d -> vsize v <= fd -> doc_utf8 d ->
+  decode_json e wc ps_empty ignore parseF fd t (render_json fmtF pretty 0 d) = DOk (canon v).
+Proof.
+  intros Ho Hw Hn Hwt Ht He Hs Hu. rewrite <- (expect_is_canon parseF e wc ignore t v fd Hw Hn Ht).
+  eapply decode_json_roundtrip; eassumption.
+Qed.
+
+(* ======================================================================================================
+   The premise on float text as a boolean: the strict parser reads the whole text as one number
+   ====================================================================================================== *)
+Definition json_number_text (t : bytes) : bool :=
+  match parse_number t with
+  | Some (t', r) => bytes_eqb t' t && match r with [] => true | _ => false end
+  | None => false
+  end.
+
+Definition frac_of (s2 : bytes) : option (bytes * bytes) :=
+  match s2 with
+  | c :: r => if Byte.eqb c x2e then
+                let '(fp, s3) := take_digits r in
+                match fp with [] => None | _ => Some (c :: fp, s3) end
+              else Some ([], s2)
+  | [] => Some ([], [])
+  end.
+Definition ex_of (s3 : bytes) : option (bytes * bytes) :=
+  match s3 with
+  | c :: r =>
+      if Byte.eqb c x65 || Byte.eqb c x45 then
+        let '(sg, r') := match r with
+                         | c2 :: r2 => if Byte.eqb c2 x2b || Byte.eqb c2 x2d then ([c2], r2) else ([], r)
+                         | [] => ([], [])
+                         end in
+        let '(ep, s4) := take_digits r' in
+        match ep with [] => None | _ => Some (c :: sg ++ ep, s4) end
+      else Some ([], s3)
+  | [] => Some ([], [])
+  end.
+Definition pn_tail (sign s1 : bytes) : option (bytes * bytes) :=
+  let '(ip, s2) := take_digits s1 in
+  match ip with
+  | [] => None
+  | d0 :: dr =>
+      if Byte.eqb d0 x30 && negb (match dr with [] => true | _ => false end) then None
+      else match frac_of s2 with
+           | None => None
+           | Some (fp, s3) =>
+               match ex_of s3 with
+               | None => None
+               | Some (ep, s4) => Some (sign ++ ip ++ fp ++ ep, s4)
+               end
+           end
+  end.
+Lemma parse_number_eq s : parse_number s =
+  match s with
+  | c :: r => if Byte.eqb c x2d then pn_tail [c] r else pn_tail [] s
+  | [] => pn_tail [] []
+  end.
+Proof. unfold parse_number. destruct s as [|c r]; [reflexivity|]. destruct (Byte.eqb c x2d); reflexivity. Qed.
+
+Definition nondigit_head (rest : bytes) : Prop := match rest with c :: _ => is_digit c = false | [] => True end.
+Lemma ends_nondigit rest : ends_number rest -> nondigit_head rest.
+Proof. destruct rest; [exact (fun H => H)|]. intros [A _]. exact A. Qed.
+
+Lemma take_digits_app' s ip s2 rest : take_digits s = (ip, s2) -> nondigit_head rest -> take_digits (s ++ rest) = (ip, s2 ++ rest).
+Proof.
+  revert ip s2. induction s as [|c r IH]; intros ip s2 H Hr.
+  - cbn in H. injection H as <- <-. cbn [app]. destruct rest as [|c r]; [reflexivity|]. cbn [take_digits]. cbn in Hr. rewrite Hr. reflexivity.
+  - cbn [take_digits] in H. cbn [app take_digits]. destruct (is_digit c).
+    + destruct (take_digits r) as [d t] eqn:E. injection H as <- <-. rewrite (IH _ _ eq_refl Hr). reflexivity.
+    + injection H as <- <-. reflexivity.
+Qed.
+
+Lemma ex_of_app s3 ep s4 rest : ex_of s3 = Some (ep, s4) -> ends_number rest -> ex_of (s3 ++ rest) = Some (ep, s4 ++ rest).
+Proof.
+  intros H He. destruct s3 as [|c r].
+  - cbn in H. injection H as <- <-. cbn [app]. destruct rest as [|c r]; [reflexivity|]. destruct He as (_ & _ & A & B).
+    cbn [ex_of]. rewrite A, B. reflexivity.
+  - cbn [ex_of] in H. cbn [app ex_of]. destruct (Byte.eqb c x65 || Byte.eqb c x45).
+    + destruct r as [|c2 r2].
+      * cbn in H. discriminate H.
+      * cbn [app]. destruct (Byte.eqb c2 x2b || Byte.eqb c2 x2d).
+        -- destruct (take_digits r2) as [e4 t4] eqn:E. rewrite (take_digits_app' _ _ _ rest E (ends_nondigit _ He)).
+           destruct e4; [discriminate H|]. injection H as <- <-. reflexivity.
+        -- destruct (take_digits (c2 :: r2)) as [e4 t4] eqn:E.
+           change (c2 :: r2 ++ rest) with ((c2 :: r2) ++ rest). rewrite (take_digits_app' _ _ _ rest E (ends_nondigit _ He)).
+           destruct e4; [discriminate H|]. injection H as <- <-. reflexivity.
+    + injection H as <- <-. reflexivity.
+Qed.
+
+Lemma frac_of_app s2 fp s3 rest : frac_of s2 = Some (fp, s3) -> ends_number rest -> frac_of (s2 ++ rest) = Some (fp, s3 ++ rest).
+Proof.
+  intros H He. destruct s2 as [|c r].
+  - cbn in H. injection H as <- <-. cbn [app]. destruct rest as [|c r]; [reflexivity|]. destruct He as (_ & A & _).
+    cbn [frac_of]. rewrite A. reflexivity.
+  - cbn [frac_of] in H. cbn [app frac_of]. destruct (Byte.eqb c x2e).
+    + destruct (take_digits r) as [f4 t4] eqn:E. rewrite (take_digits_app' _ _ _ rest E (ends_nondigit _ He)).
+      destruct f4; [discriminate H|]. injection H as <- <-. reflexivity.
+    + injection H as <- <-. reflexivity.
+Qed.
+
+Lemma pn_tail_app sign s1 a s4 rest : pn_tail sign s1 = Some (a, s4) -> ends_number rest ->
+  pn_tail sign (s1 ++ rest) = Some (a, s4 ++ rest).
+Proof.
+  unfold pn_tail. intros H He. destruct (take_digits s1) as [ip s2] eqn:E.
+  rewrite (take_digits_app' _ _ _ rest E (ends_nondigit _ He)).
+  destruct ip as [|d0 dr]; [discriminate H|].
+  destruct (Byte.eqb d0 x30 && negb (match dr with [] => true | _ => false end)); [discriminate H|].
+  destruct (frac_of s2) as [[fp s3]|] eqn:Ef; [|discriminate H]. rewrite (frac_of_app _ _ _ rest Ef He).
+  destruct (ex_of s3) as [[ep s5]|] eqn:Ee; [|discriminate H]. rewrite (ex_of_app _ _ _ rest Ee He).
+  injection H as <- <-. reflexivity.
+Qed.
+
+Theorem parse_number_app s a s4 rest : parse_number s = Some (a, s4) -> ends_number rest ->
+  parse_number (s ++ rest) = Some (a, s4 ++ rest).
+Proof.
+  rewrite !parse_number_eq. intros H He. destruct s as [|c r].
+  - cbn in H. discriminate H.
+  - cbn [app]. destruct (Byte.eqb c x2d).
+    + apply pn_tail_app; assumption.
+    + change (c :: r ++ rest) with ((c :: r) ++ rest). apply pn_tail_app; assumption.
+Qed.
+
+Theorem json_number_text_ok t : json_number_text t = true -> json_number_ok t.
+Proof.
+  unfold json_number_text. intros H rest He. destruct (parse_number t) as [[t' r]|] eqn:E; [|discriminate H].
+  apply andb_true_iff in H as [H1 H2]. apply bytes_eqb_eq in H1. subst t'. destruct r; [|discriminate H2].
+  exact (parse_number_app _ _ _ _ E He).
+Qed.
+
+(* ======================================================================================================
+   Valid UTF-8 in the schema and the value gives a valid document
+   ====================================================================================================== *)
+Fixpoint ty_utf8 (t : ty) : Prop :=
+  match t with
+  | TEnum syms => Forall (fun s => valid_utf8 s = true) syms
+  | TArray t' | TMap t' => ty_utf8 t'
+  | _ => True
+  end.
+(* field names, union member aliases and enum symbols of the schema are valid UTF-8 *)
+Definition env_utf8 (e : env) : Prop :=
+  (forall n incs fs, lookup e n = Some (DRecord incs fs) -> Forall (fun fd => valid_utf8 (f_name fd) = true /\ ty_utf8 (f_ty fd)) fs) /\
+  (forall n nullable ms, lookup e n = Some (DUnion nullable ms) -> Forall (fun m => valid_utf8 (fst m) = true /\ ty_utf8 (snd m)) ms).
+(* strings and map keys of the value are valid UTF-8 *)
+Inductive val_utf8 : value -> Prop :=
+| vu_leaf v : match v with
+              | VStr s => valid_utf8 s = true
+              | VArr _ | VMap _ | VRec _ _ | VUnion _ => False
+              | _ => True
+              end -> val_utf8 v
+| vu_arr l : Forall val_utf8 l -> val_utf8 (VArr l)
+| vu_map es : Forall (fun kv => valid_utf8 (fst kv) = true /\ val_utf8 (snd kv)) es -> val_utf8 (VMap es)
+| vu_rec ivs fvs : Forall val_utf8 ivs -> Forall (fun ov => forall x, ov = Some x -> val_utf8 x) fvs -> val_utf8 (VRec ivs fvs)
+| vu_union ms : Forall (fun ov => forall x, ov = Some x -> val_utf8 x) ms -> val_utf8 (VUnion ms).
+
+Definition ents_utf8 (ents : list (bytes * doc)) : Prop := Forall (fun kd => valid_utf8 (fst kd) = true /\ doc_utf8 (snd kd)) ents.
+
+Lemma ents_utf8_sort ents : ents_utf8 ents -> ents_utf8 (sort_entries ents).
+Proof.
+  unfold ents_utf8. intros H. rewrite Forall_forall in *. intros kd Hin. apply H.
+  eapply Permutation_in; [apply sort_entries_perm | exact Hin].
+Qed.
+
+Section EncUtf8.
+  Variable e : env.
+  Variable wc : bytes.
+  Hypothesis He : env_utf8 e.
+  Local Notation Enc := (enc e wc ps_empty).
+
+  Definition EU (fe : nat) : Prop :=
+    forall scope t v d, ty_utf8 t -> val_utf8 v -> Enc fe scope t v = Ok d -> doc_utf8 d.
+
+  Lemma du_str s : valid_utf8 s = true -> doc_utf8 (DLeaf (LStr s)).
+  Proof. intros H. constructor. exact H. Qed.
+
+  Lemma enc_utf8_all : forall fe, EU fe.
+  Proof.
+    induction fe as [|fe IH]; intros scope t v d Ht Hv H; [discriminate H|].
+    assert (Hkey : forall key t' v' ents, valid_utf8 key = true -> ty_utf8 t' -> val_utf8 v' ->
+              enc_key_ e wc fe scope key t' v' = Ok ents -> ents_utf8 ents).
+    { intros key t' v' ents Hk Ht' Hv' Hk'. rewrite enc_key_eq in Hk'.
+      destruct (Enc fe (scope ++ [key]) t' v') as [d'| |] eqn:Ed; try discriminate Hk'. injection Hk' as <-.
+      constructor; [|constructor]. split; [exact Hk | eapply IH; eassumption]. }
+    destruct t as [p|syms|n|n|t'|t'].
+    - (* primitives *) destruct p, v; try (cbn in H; discriminate H); cbn in H; injection H as <-; try (constructor; exact I).
+      apply du_str. inversion Hv; assumption.
+    - (* enum *) destruct v as [z|z|b|b|b|s|s|k|s|ivs fvs|mvs|l|es]; try (cbn in H; discriminate H).
+      cbn in H. destruct k as [|i]; [discriminate H|]. destruct (nth_error syms i) as [s|] eqn:En; [|discriminate H].
+      injection H as <-. apply du_str. cbn in Ht. rewrite Forall_forall in Ht. apply Ht. eapply nth_error_In, En.
+    - (* fixed *) destruct v as [z|z|b|b|b|s|s|k|s|ivs fvs|mvs|l|es]; try (cbn in H; discriminate H). cbn in H. injection H as <-. constructor. exact I.
+    - destruct v as [z|z|b|b|b|s|s|k|s|ivs fvs|mvs|l|es]; try (cbn in H; discriminate H); [|].
+      { (* record *)
+      rewrite enc_rec in H. destruct (lookup e n) as [[incs fs|? ?]|] eqn:Hl; try discriminate H.
+      destruct (enc_incs_ e wc fe scope incs ivs) as [a| |] eqn:Ea; try discriminate H. cbn [bind] in H.
+      destruct (enc_fields_ e wc fe scope fs fvs) as [own| |] eqn:Eo; try discriminate H. cbn [bind] in H. injection H as <-.
+      inversion Hv as [? Hf| | |? ? Hiv Hfv|]; subst; [contradiction|]. clear Hv.
+      constructor. apply ents_utf8_sort. apply Forall_app. split.
+      + clear Eo Hl. revert ivs a Hiv Ea. induction incs as [|i incs IHi]; intros vi a Hiv Ea; destruct vi as [|iv vi]; cbn [enc_incs_] in Ea; try discriminate Ea.
+        * injection Ea as <-. constructor.
+        * fold (enc_incs_ e wc fe scope) in Ea. inversion Hiv; subst.
+          destruct (Enc fe scope (TRef i) iv) as [di| |] eqn:Ei; try discriminate Ea. cbn [bind] in Ea.
+          destruct di as [|?|ents]; try discriminate Ea. cbn [bind] in Ea.
+          destruct (enc_incs_ e wc fe scope incs vi) as [b| |] eqn:Eb; try discriminate Ea. cbn [bind] in Ea. injection Ea as <-.
+          apply Forall_app. split; [|eapply IHi; eassumption].
+          assert (Hd : doc_utf8 (DObj ents)) by (eapply (IH scope (TRef i)); [exact I | eassumption | exact Ei]).
+          inversion Hd; assumption.
+      + pose proof (proj1 He _ _ _ Hl) as Hfs. clear Ea Hl. revert fvs own Hfv Eo.
+        induction fs as [|fd fs IHf]; intros vf own Hfv Eo; destruct vf as [|ov vf]; cbn [enc_fields_] in Eo; try discriminate Eo.
+        * injection Eo as <-. constructor.
+        * fold (enc_fields_ e wc fe scope) in Eo. inversion Hfv; subst. inversion Hfs as [|? ? [Hn Hty] Hfs']; subst.
+          destruct ov as [x|].
+          -- destruct (enc_key_ e wc fe scope (f_name fd) (f_ty fd) x) as [here| |] eqn:Ek; try discriminate Eo. cbn [bind] in Eo.
+             destruct (enc_fields_ e wc fe scope fs vf) as [r| |] eqn:Er; try discriminate Eo. cbn [bind] in Eo. injection Eo as <-.
+             apply Forall_app. split; [eapply Hkey; [exact Hn | exact Hty | | exact Ek]; auto | eapply IHf; eassumption].
+          -- destruct (is_required (f_opt fd)); [discriminate Eo|]. cbn [bind] in Eo.
+             destruct (enc_fields_ e wc fe scope fs vf) as [r| |] eqn:Er; try discriminate Eo. cbn [bind] in Eo. injection Eo as <-.
+             eapply IHf; eassumption. }
+      { (* union *)
+      rewrite enc_union in H. destruct (lookup e n) as [[? ?|nullable ms]|] eqn:Hl; try discriminate H.
+      destruct (enc_union_go e wc fe scope ms mvs false) as [[ents b]| |] eqn:Eg; try discriminate H. cbn [bind fst snd] in H.
+      destruct (negb nullable && negb b); [discriminate H|]. injection H as <-.
+      inversion Hv as [? Hf| | | |? Hms]; subst; [contradiction|]. clear Hv.
+      pose proof (proj2 He _ _ _ Hl) as Hm.
+      constructor. apply ents_utf8_sort.
+      assert (G : forall isSet r, enc_union_go e wc fe scope ms mvs isSet = Ok r -> ents_utf8 (fst r)); [|exact (G _ _ Eg)].
+      clear Eg Hl. revert mvs Hms. induction ms as [|[alias mt] ms IHm]; intros vs Hms isSet r Eg; destruct vs as [|ov vs]; cbn [enc_union_go] in Eg; try discriminate Eg.
+      + injection Eg as <-. constructor.
+      + fold (enc_union_go e wc fe scope) in Eg. inversion Hms; subst. inversion Hm as [|? ? [Hn Hty] Hm']; subst. cbn [fst snd] in *.
+        destruct ov as [x|]; [|eapply IHm; eassumption].
+        destruct isSet; [discriminate Eg|].
+        destruct (enc_key_ e wc fe scope alias mt x) as [a| |] eqn:Ek; try discriminate Eg. cbn [bind] in Eg.
+        destruct (enc_union_go e wc fe scope ms vs true) as [br| |] eqn:Eb; try discriminate Eg. cbn [bind] in Eg. injection Eg as <-.
+        cbn [fst]. apply Forall_app. split; [eapply Hkey; [exact Hn | exact Hty | | exact Ek]; auto | eapply IHm; eassumption]. }
+    - (* array *) destruct v as [z|z|b|b|b|s|s|k|s|ivs fvs|mvs|l|es]; try (cbn in H; discriminate H).
+      rewrite enc_arr in H. destruct (mapM _ l) as [ds| |] eqn:Em; try discriminate H. cbn [bind] in H. injection H as <-.
+      apply mapM_Forall2 in Em. inversion Hv as [? Hf|? Hl| | |]; subst; [contradiction|].
+      constructor. clear Hv. induction Em as [|x d0 l ds Hx HF IHl]; constructor.
+      + inversion Hl; subst. eapply (IH _ t'); [exact Ht | eassumption | exact Hx].
+      + inversion Hl; subst. auto.
+    - (* map *) destruct v as [z|z|b|b|b|s|s|k|s|ivs fvs|mvs|l|es]; try (cbn in H; discriminate H).
+      rewrite enc_map in H. destruct (enc_map_go e wc fe scope t' es) as [ents| |] eqn:Eg; try discriminate H.
+      cbn [bind] in H. injection H as <-. inversion Hv as [? Hf| |? Hes| |]; subst; [contradiction|].
+      constructor. apply ents_utf8_sort. clear Hv. revert ents Eg.
+      induction es as [|[k x] es IHe]; intros ents Eg; cbn [enc_map_go] in Eg.
+      + injection Eg as <-. constructor.
+      + fold (enc_map_go e wc fe scope t') in Eg. inversion Hes as [|? ? [Hk Hx] Hes']; subst. cbn [fst snd] in *.
+        destruct (enc_key_ e wc fe scope k t' x) as [a| |] eqn:Ek; try discriminate Eg. cbn [bind] in Eg.
+        destruct (enc_map_go e wc fe scope t' es) as [b| |] eqn:Eb; try discriminate Eg. cbn [bind] in Eg. injection Eg as <-.
+        apply Forall_app. split; [exact (Hkey k t' x a Hk Ht Hx Ek) | apply IHe; [exact Hes' | reflexivity]].
+  Qed.
+End EncUtf8.
+
+Theorem enc_doc_utf8 e wc fe scope t v d :
+  env_utf8 e -> ty_utf8 t -> val_utf8 v -> enc e wc ps_empty fe scope t v = Ok d -> doc_utf8 d.
+Proof. intros He Ht Hv H. exact (enc_utf8_all e wc He fe scope t v d Ht Hv H). Qed.
+
+(* ======================================================================================================
+   Final forms
+   ====================================================================================================== *)
+(* J4 over schemas and values: the premise on the document is discharged by the premise on the schema and the value *)
+Theorem json_roundtrip fmtF parseF e wc ignore fe scope t v d fd pretty :
+  json_float_oracle_ok fmtF parseF ->
+  wf_env e -> wf_ty t -> typed e t v -> env_utf8 e -> ty_utf8 t -> val_utf8 v ->
+  enc e wc ps_empty fe scope t v = Ok d -> vsize v <= fd ->
+  decode_json e wc ps_empty ignore parseF fd t (render_json fmtF pretty 0 d) = DOk (expect parseF e wc ignore v fd t).
+Proof.
+  intros Ho Hw Hwt Ht Hue Hut Huv He Hs. eapply decode_json_roundtrip; try eassumption.
+  eapply enc_doc_utf8; eassumption.
+Qed.
+
+Theorem json_roundtrip_nodefaults fmtF parseF e wc ignore fe scope t v d fd pretty :
+  json_float_oracle_ok fmtF parseF ->
+  wf_env e -> no_defaults e -> wf_ty t -> typed e t v -> env_utf8 e -> ty_utf8 t -> val_utf8 v ->
+  enc e wc ps_empty fe scope t v = Ok d -> vsize v <= fd ->
+  decode_json e wc ps_empty ignore parseF fd t (render_json fmtF pretty 0 d) = DOk (canon v).
+Proof.
+  intros Ho Hw Hn Hwt Ht Hue Hut Huv He Hs. rewrite <- (expect_is_canon parseF e wc ignore t v fd Hw Hn Ht).
+  eapply json_roundtrip; eassumption.
+Qed.
+
+(* J1 at the top of a document *)
+Theorem json_tree_roundtrip_top fmtF parseF e wc ignore fe scope t v d fd :
+  json_float_oracle_ok fmtF parseF ->
+  wf_env e -> wf_ty t -> typed e t v -> enc e wc ps_empty fe scope t v = Ok d -> vsize v <= fd ->
+  exists tr, decJ e wc ps_empty ignore parseF fd true t (to_jdoc fmtF d) tracker0 = Ok (expect parseF e wc ignore v fd t, tr)
+             /\ t_missing tr = [].
+Proof.
+  intros (_ & O64 & O32) Hw Hwt Ht He Hs. exists tracker0. split; [|reflexivity].
+  exact (json_tree_roundtrip fmtF parseF e wc ignore O64 O32 Hw fe scope t v d fd true tracker0 Hwt Ht He Hs (or_intror eq_refl)).
+Qed.
+
+(* ---- the premises on the float oracle are jointly satisfiable (a toy strconv: the bit pattern in decimal) ---- *)
+Definition class_g (M E b : N) : fclass :=
+  if ((b / M) mod E =? E - 1)%N
+  then (if (b mod M =? 0)%N then (if (b / (M * E) =? 0)%N then FPosInf else FNegInf) else FNaN)
+  else FFinite.
+Lemma class_g_32 b : classify_float true b = class_g 8388608 256 b.
+Proof. reflexivity. Qed.
+Lemma class_g_64 b : classify_float false b = class_g 4503599627370496 2048 b.
+Proof. reflexivity. Qed.
+
+Lemma class_g_inf M E b : (0 < M)%N -> (1 < E)%N -> (b < 2 * (M * E))%N ->
+  (class_g M E b = FPosInf -> b = (M * (E - 1))%N) /\ (class_g M E b = FNegInf -> b = (M * E + M * (E - 1))%N).
+Proof.
+  intros HM HE Hb. unfold class_g.
+  destruct (N.eqb_spec ((b / M) mod E) (E - 1)) as [Ex|Ex]; [|split; discriminate].
+  destruct (N.eqb_spec (b mod M) 0) as [Em|Em]; [|split; discriminate].
+  pose proof (N.div_mod b M ltac:(lia)) as D1. rewrite Em, N.add_0_r in D1.
+  pose proof (N.div_mod (b / M) E ltac:(lia)) as D2. rewrite Ex in D2.
+  assert (Hs : (b / M / E = b / (M * E))%N) by (apply N.div_div; lia).
+  assert (Hlt : (b / (M * E) < 2)%N) by (apply N.div_lt_upper_bound; lia).
+  set (s := (b / (M * E))%N) in *. set (q := (b / M)%N) in *. rewrite Hs in D2.
+  destruct (N.eqb_spec s 0) as [E0|E0]; split; try discriminate; intros _.
+  - rewrite E0, N.mul_0_r, N.add_0_l in D2. rewrite D1, D2. reflexivity.
+  - assert (s = 1%N) by lia. rewrite H, N.mul_1_r in D2. rewrite D1, D2. lia.
+Qed.
+
+Definition toy_fmt (is32 : bool) (b : N) : bytes := print_dec (Z.of_N b).
+Definition toy_parse (m : nat) (s : bytes) : option N :=
+  match parse_dec s with
+  | Some z => Some (Z.to_N z)
+  | None =>
+      if bytes_eqb s s_inf then Some (if Nat.eqb m 0 then 9218868437227405312 else 2139095040)%N
+      else if bytes_eqb s s_ninf then Some (if Nat.eqb m 0 then 18442240474082181120 else 4286578688)%N
+      else None
+  end.
+
+Theorem json_float_oracle_consistent : json_float_oracle_ok toy_fmt toy_parse.
+Proof.
+  split; [|split].
+  - intros is32 b _. apply print_dec_number.
+  - intros b Hb Hn. unfold float_text. rewrite class_g_64 in *.
+    destruct (class_g_inf 4503599627370496 2048 b ltac:(lia) ltac:(lia) ltac:(change (2 ^ 64)%N with 18446744073709551616%N in Hb; lia)) as [A B].
+    destruct (class_g 4503599627370496 2048 b); [congruence| | |].
+    + rewrite (A eq_refl). reflexivity.
+    + rewrite (B eq_refl). reflexivity.
+    + unfold toy_parse, toy_fmt. rewrite parse_print_dec, N2Z.id. reflexivity.
+  - intros b Hb Hn. unfold float_text. rewrite class_g_32 in *.
+    destruct (class_g_inf 8388608 256 b ltac:(lia) ltac:(lia) ltac:(change (2 ^ 32)%N with 4294967296%N in Hb; lia)) as [A B].
+    destruct (class_g 8388608 256 b); [congruence| | |].
+    + rewrite (A eq_refl). reflexivity.
+    + rewrite (B eq_refl). reflexivity.
+    + unfold toy_parse, toy_fmt. rewrite parse_print_dec, N2Z.id. reflexivity.
+Qed.
+
+(* ---- the statement without the UTF-8 premises is false: the writer replaces ill-formed bytes by U+FFFD ---- *)
+Definition json_roundtrip_full : Prop :=
+  forall fmtF parseF e wc ignore fe scope t v d fd pretty,
+  json_float_oracle_ok fmtF parseF ->
+  wf_env e -> wf_ty t -> typed e t v -> enc e wc ps_empty fe scope t v = Ok d -> vsize v <= fd ->
+  decode_json e wc ps_empty ignore parseF fd t (render_json fmtF pretty 0 d) = DOk (expect parseF e wc ignore v fd t).
+
+Definition bad_str : value := VStr [xff].
+Lemma bad_str_decodes fmtF parseF pretty :
+  decode_json [] [] ps_empty 0 parseF 1 (TPrim PString) (render_json fmtF pretty 0 (DLeaf (LStr [xff]))) = DOk (VStr [xef; xbf; xbd]).
+Proof. destruct pretty; vm_compute; reflexivity. Qed.
+
+Lemma wf_env_nil : wf_env [].
+Proof. split; intros n ? ? H; destruct n; discriminate H. Qed.
+
+Theorem json_roundtrip_refuted :
+  exists e wc ignore fe scope t v d fd,
+    wf_env e /\ wf_ty t /\ typed e t v /\ enc e wc ps_empty fe scope t v = Ok d /\ vsize v <= fd /\
+    forall fmtF parseF pretty,
+      decode_json e wc ps_empty ignore parseF fd t (render_json fmtF pretty 0 d) <> DOk (expect parseF e wc ignore v fd t).
+Proof.
+  exists [], [], 0, 1, [], (TPrim PString), bad_str, (DLeaf (LStr [xff])), 1.
+  split; [exact wf_env_nil|]. split; [exact I|]. split; [constructor|]. split; [reflexivity|]. split; [simpl; lia|].
+  intros fmtF parseF pretty. rewrite bad_str_decodes. cbn. discriminate.
+Qed.
+
+Theorem json_roundtrip_full_false : ~ json_roundtrip_full.
+Proof.
+  intros F. destruct json_roundtrip_refuted as (e & wc & ig & fe & sc & t & v & d & fd & Hw & Hwt & Ht & He & Hs & Hbad).
+  apply (Hbad toy_fmt toy_parse false). unfold json_roundtrip_full in F.
+  eapply F; try eassumption. exact json_float_oracle_consistent.
+Qed.
+
+(* the same holds for a map key: ill-formed keys do not survive either *)
+Example bad_key_decodes :
+  decode_json [] [] ps_empty 0 toy_parse 3 (TMap (TPrim PInt))
+    (render_json toy_fmt false 0 (DObj [([xc3], DLeaf (LInt 1))])) = DOk (VMap [([xef; xbf; xbd], VInt 1)]).
+Proof. vm_compute. reflexivity. Qed.
+
+(* ---- non-vacuity: the example schema of Ror2RoundTrip (include, optional map, default, array of unions) ---- *)
+Lemma ex_env_utf8 : env_utf8 ex_env.
+Proof.
+  split.
+  - intros n incs fs H. destruct n as [|[|[|n]]]; cbn in H; try discriminate; try (destruct n; discriminate); injection H as <- <-;
+      repeat constructor.
+  - intros n nullable ms H. destruct n as [|[|[|n]]]; cbn in H; try discriminate; try (destruct n; discriminate).
+    injection H as <- <-. repeat constructor.
+Qed.
+Lemma ex_v_utf8 : val_utf8 ex_v.
+Proof.
+  unfold ex_v.
+  repeat first [ apply vu_rec | apply vu_arr | apply vu_map | apply vu_union
+               | apply Forall_cons | apply Forall_nil | split
+               | (let x := fresh in let E := fresh in intros x E; first [discriminate E | injection E as <-])
+               | (apply vu_leaf; exact I) | (apply vu_leaf; reflexivity) | reflexivity ].
+Qed.
+
+Example json_nonvacuous :
+  exists d, enc ex_env [] ps_empty 10 [] (TRef 2) ex_v = Ok d /\ doc_utf8 d /\
+    decode_json ex_env [] ps_empty 0 toy_parse 30 (TRef 2) (render_json toy_fmt false 0 d)
+      = DOk (expect toy_parse ex_env [] 0 ex_v 30 (TRef 2)) /\
+    decode_json ex_env [] ps_empty 0 toy_parse 30 (TRef 2) (render_json toy_fmt true 0 d)
+      = DOk (expect toy_parse ex_env [] 0 ex_v 30 (TRef 2)).
+Proof.
+  eexists. split; [vm_compute; reflexivity|]. split.
+  - eapply (enc_doc_utf8 ex_env [] 10 [] (TRef 2) ex_v); [exact ex_env_utf8 | exact I | exact ex_v_utf8 | vm_compute; reflexivity].
+  - split; vm_compute; reflexivity.
+Qed.
+
+(* ---- both wire formats decode to the same value ---- *)
+Theorem toy_oracle_ror2 : float_oracle_ok toy_fmt toy_parse.
+Proof.
+  destruct json_float_oracle_consistent as (_ & A & B). split; [|split].
+  - intros is32 b. apply print_dec_nonempty.
+  - exact A.
+  - intros b Hb Hn. specialize (B b Hb Hn). unfold float_text in *. destruct (classify_float true b); exact B.
+Qed.
+
+Theorem json_ror2_same_value fmtF parseF e wc ignore fl qr fe scope t v d fd qp pretty :
+  float_oracle_ok fmtF parseF -> json_float_oracle_ok fmtF parseF ->
+  wf_env e -> wf_ty t -> typed e t v -> env_utf8 e -> ty_utf8 t -> val_utf8 v ->
+  enc e wc ps_empty fe scope t v = Ok d -> vsize v <= fd ->
+  decode_json e wc ps_empty ignore parseF fd t (render_json fmtF pretty 0 d) =
+  decode_ror2 e wc ps_empty ignore parseF (unescape (plus_of fl)) v2_empty_string v2_list_prefix qr fd qp t
+    (render_ror2 fmtF v2_hex_chars v2_unescaped_path_chars v2_unescaped_query_chars v2_header_escaped_chars
+       v2_empty_string v2_list_prefix fl d).
+Proof.
+  intros Hr Hj Hw Hwt Ht Hue Hut Huv He Hs.
+  rewrite (json_roundtrip fmtF parseF e wc ignore fe scope t v d fd pretty Hj Hw Hwt Ht Hue Hut Huv He Hs).
+  symmetry. eapply L4_toplevel; eassumption.
+Qed.
